@@ -138,7 +138,24 @@ def discharge(ob: Obligation, timeout_ms: int = 30000, try_cvc5: bool = True) ->
         if r == z3.unsat:
             results.append(Result(ob, "proved", "z3", dt, sub=idx))
             continue
-        r, s, dt1 = check(h, g, timeout_ms)
+        # then with only the most recent quantified hypotheses (the facts established last - callee postconditions,
+        # loop hints - are the relevant ones; early quantified facts with inferred triggers mostly cost instantiations).
+        # Dropping hypotheses is sound for a proof.
+        done = False
+        if len(h) > 30:
+            qf = [x for x in h if not _contains_quantifier(x)]
+            recent = [x for x in h if _contains_quantifier(x)][-24:]
+            for lem in (False, True):
+                r, s_, dt1 = check(qf + recent, g, min(timeout_ms, 1500), use_lemmas=lem)
+                dt += dt1
+                if r == z3.unsat:
+                    results.append(Result(ob, "proved", "z3(recent-hyps)" + ("+lemmas" if lem else ""), dt, sub=idx))
+                    done = True
+                    break
+        if done:
+            continue
+        t_main = min(timeout_ms, 6000)  # goals that z3 proves are proved in well under this; cvc5 is asked next
+        r, s, dt1 = check(h, g, t_main)
         dt += dt1
         if r == z3.unsat:
             results.append(Result(ob, "proved", "z3+lemmas", dt, sub=idx))
@@ -151,8 +168,16 @@ def discharge(ob: Obligation, timeout_ms: int = 30000, try_cvc5: bool = True) ->
                                   goal_text=gt, reason="sat"))
             continue
         reason = s.reason_unknown()
-        if try_cvc5:  # (not in hurry mode) another instantiation order before giving the goal to cvc5
-            for seed in (1, 2):
+        if try_cvc5:  # (not in hurry mode)
+            t0 = time.time()
+            ans = cvc5_check(s.to_smt2().replace("(check-sat)", ""), max(5, min(timeout_ms, 20000) // 1000))
+            dt2 = time.time() - t0
+            dt += dt2
+            if ans == "unsat":
+                results.append(Result(ob, "proved", "cvc5", dt, sub=idx, goal_text=gt))
+                continue
+            reason += f"; cvc5: {ans}"
+            for seed in (1, 2):  # other instantiation orders, with what is left of the budget
                 r2, s2, dt2 = check(h, g, max(1000, timeout_ms // 3), seed=seed)
                 dt += dt2
                 if r2 == z3.unsat:
@@ -160,14 +185,6 @@ def discharge(ob: Obligation, timeout_ms: int = 30000, try_cvc5: bool = True) ->
             if r2 == z3.unsat:
                 results.append(Result(ob, "proved", f"z3(seed={seed})", dt, sub=idx))
                 continue
-        if try_cvc5:
-            t0 = time.time()
-            ans = cvc5_check(s.to_smt2().replace("(check-sat)", ""), max(5, timeout_ms // 1000))
-            dt2 = time.time() - t0
-            if ans == "unsat":
-                results.append(Result(ob, "proved", "cvc5", dt + dt2, sub=idx, goal_text=gt))
-                continue
-            reason += f"; cvc5: {ans}"
         # unknown: try to obtain a candidate model without quantified lemmas (finite model candidates are replayed)
         results.append(Result(ob, "unknown", "z3", dt, sub=idx, goal_text=gt, reason=reason))
     return results
